@@ -379,6 +379,12 @@ pub fn run(ops: &str, out: &mut impl Write, orc: &mut impl Write) {
             // ---- end-of-case oracles (the generator ends these scripts with a long RUN)
             let (s_st, r_st) = (sys.s.tx.verif_get_state(), sys.r.tx.verif_get_state());
             let k = lines.len();
+            // both end-of-case oracles presuppose that the script ends with the long loss-free run
+            let final_run = lines.last().map_or(false, |l| {
+                let t: Vec<&str> = l.split_whitespace().collect();
+                t.len() == 2 && t[0] == "RUN" && t[1].parse::<u64>().map_or(false, |n| n >= 1000)
+            });
+            let (c02, c03) = (c02 && final_run, c03 && final_run);
             if c03 {
                 // C03: left alone - whatever was lost, whichever direction went dark - both transactions end
                 if !(sys.s.dead && sys.r.dead) {
@@ -458,7 +464,7 @@ pub fn gen(seed: u64, tier: &str, w: &mut impl Write, stats: &mut Stats) {
         let (ti, ta, tn) = if kind <= 4 { (40 + r.below(20), 2 + r.below(4), 2 + r.below(4)) } else { (2 + r.below(8), 1 + r.below(5), 1 + r.below(6)) };
         let closure = r.chance(1, 2);
         let ck = if r.chance(3, 4) { "M" } else { "N" };
-        let sizes = [0, 1, seg - 1, seg, seg + 1, 2 * seg, 3 * seg + 5, r.below(6 * seg + 1)];
+        let sizes = [0, 1, seg - 1, seg, seg + 1, 2 * seg, 3 * seg + 5, r.below(6 * seg + 1), 0, 1, seg];
         let flen = *r.pick(&sizes) as usize;
         let file = file_content(&mut r, flen);
         let handlers = if kind >= 8 && r.chance(1, 3) {
@@ -510,6 +516,40 @@ pub fn gen(seed: u64, tier: &str, w: &mut impl Write, stats: &mut Stats) {
             // while a PDU is in flight (RUN only sleeps when nothing is in flight)
             let mut drops = r.below(maxc); // < maxc
             stats.add("faults_drop", drops);
+            if r.chance(1, 2) {
+                // stepwise: the system advances one loop iteration at a time; drops aimed at a chosen PDU of
+                // the sender's first pass (metadata, k-th segment, EOF), then at whatever is in flight later
+                // (ACKs, NAKs, Finished, retransmissions)
+                stats.inc("script_bounded_stepwise");
+                let nseg = (flen as u64 + seg - 1) / seg;
+                let first_pass = nseg + 2;
+                let mut dropped = 0u64;
+                for j in 0..first_pass {
+                    ops.push("RUN 1".into());
+                    if drops > 0 && r.chance(1, 3) {
+                        drops -= 1;
+                        ops.push(format!("DROP R {}", j - dropped));
+                        dropped += 1;
+                    }
+                }
+                let m = 10 + r.below(60);
+                for _ in 0..m {
+                    ops.push("RUN 1".into());
+                    if drops > 0 && r.chance(1, 5) {
+                        drops -= 1;
+                        ops.push(format!("DROP {} 0", r.pick(&["S", "S", "R"])));
+                    } else if r.chance(1, 12) {
+                        stats.inc("faults_dup");
+                        ops.push(format!("DUP {} 0", r.pick(&["S", "R"])));
+                    }
+                }
+                ops.push("RUN 4000".into());
+                stats.add("ops", ops.len() as u64);
+                for o in ops {
+                    writeln!(w, "{o}").unwrap();
+                }
+                continue;
+            }
             let m = r.below(70);
             for _ in 0..m {
                 match r.below(25) {
